@@ -3,7 +3,7 @@ from __future__ import annotations
 
 from typing import Optional
 
-from .absval import AV, Atom, Literal, abstractor
+from .absval import AV, NEGATE, Atom, Literal, abstractor
 from .engine import Engine
 from .model import FunctionInfo
 from .report import Report
@@ -124,10 +124,23 @@ def assign_conjunctions(E: Engine, f: FunctionInfo) -> list[tuple[int, list[Lite
     return out
 
 
+def lit_is_raise_guard(conj: list, lit) -> bool:
+    """Is ``lit`` the innermost (last) test guarding the raise of this conjunction?  Earlier literals of an
+    if/elif chain are the negations of the tests that were *not* taken."""
+    return bool(conj) and conj[-1] is lit
+
+
 def check_rows(E: Engine, rep: Report, rule: str, rows: list[dict], source: str = "raise") -> None:
     """Each row: function, id, quantity[], q_tags[], rel, limit[], l_tags[], quant, none_guard(bool), why."""
     by_fn: dict[str, list[dict]] = {}
     for row in rows:
+        if row["function"] not in E.P.functions and row.get("fallback"):
+            # a private helper that was inlined at its call site: the same atom is required of the function
+            # that absorbed it (the row names that function and the operand's name there)
+            for alt in row["fallback"]:
+                if alt["function"] in E.P.functions:
+                    row = {**row, **alt, "id": row["id"], "why": row["why"] + f" [anchor {row['function'].split('.')[-1]} is gone: decided in {alt['function'].split('.')[-1]}]"}
+                    break
         by_fn.setdefault(row["function"], []).append(row)
     for fq, frows in by_fn.items():
         f = E.fn(fq)
@@ -157,7 +170,12 @@ def check_rows(E: Engine, rep: Report, rule: str, rows: list[dict], source: str 
                                 continue
                         found_ok = (line, a, conj)
                     else:
-                        found_wrong.append((line, a, f"relation is {a.quant + ':' if a.quant else ''}{a.rel}, the property requires {row.get('quant', '') + ':' if row.get('quant') else ''}{row['rel']}"))
+                        complement = NEGATE.get(row["rel"]) == a.rel and not lit_is_raise_guard(conj, lit)
+                        found_wrong.append((line, a, f"relation is {a.quant + ':' if a.quant else ''}{a.rel}, the property requires {row.get('quant', '') + ':' if row.get('quant') else ''}{row['rel']}", complement))
+            if found_ok:
+                # the complement of the required atom in the conjunction of a *later* raise is what an if/elif chain
+                # (or an early exit) implies there -- not a second, contradicting guard
+                found_wrong = [w for w in found_wrong if not (len(w) > 3 and w[3])]
             where = f"{f.module.relpath}:{(found_ok[0] if found_ok else (found_wrong[0][0] if found_wrong else f.node.lineno))} ({f.short})"
             if not found_ok and not found_wrong and source == "raise":
                 # the abstraction lost the atom (guards written as a table of cases, a loop over a literal tuple,
@@ -173,7 +191,7 @@ def check_rows(E: Engine, rep: Report, rule: str, rows: list[dict], source: str 
             if found_ok and not found_wrong:
                 rep.ok(rule, key, f"{row['why']}: {found_ok[1].show()}", where)
             elif found_wrong:
-                line, a, msg = found_wrong[0]
+                line, a, msg = found_wrong[0][:3]
                 rep.violation(rule, key, f"{row['why']}: rejection atom {a.show()} -- {msg}", where)
             else:
                 rep.violation(rule, key, f"{row['why']}: no rejection atom relating {row['quantity']} {row.get('q_tags', [])} to {row['limit']} found in {f.short} (limit not enforced)", where)
